@@ -68,6 +68,7 @@ NoDonorNoCx == dn = 0 => \A z \in 1..Z : QR(z) = Alpha(z)
 \* ---- neutrality matching: the species given by the caller carry the fraction g of the electron charge; the matched element
 \* takes the rest, (1 - g) n_e, shared out by the balance fractions - and nothing when the given species already carry more
 \* charge than there are electrons (g > 1): densities are never negative
+\* (the given species are dictionaries charge -> density: the order in which their charges are listed is the caller's business)
 GivenFracs == << <<1, 15>>, <<9, 10>>, <<3, 2>> >>
 BulkCharge(g) == IF g[1] < g[2] THEN <<g[2] - g[1], g[2]>> ELSE <<0, 1>>
 BulkNonNegative == \A i \in DOMAIN GivenFracs : BulkCharge(GivenFracs[i])[1] >= 0 /\ BulkCharge(GivenFracs[i])[1] <= BulkCharge(GivenFracs[i])[2]
